@@ -71,6 +71,20 @@ func (o observation) eval(m map[string]uint64) string {
 			if v.t == nil {
 				return "<nil>"
 			}
+			if sl, ok := v.v.([]value); ok && len(sl) == 0 {
+				if st, ok := v.t.Underlying().(*types.Slice); ok {
+					if b, ok := st.Elem().Underlying().(*types.Basic); ok && b.Kind() == types.Uint8 {
+						return strconv.Quote("")
+					}
+				}
+			}
+			if t, ok := v.v.(*sym.Term); ok && t.W > 0 {
+				if _, signed, ok := intInfo(v.t); ok && signed {
+					x := sym.Eval(t, m, memo)
+					sh := 64 - uint(t.W)
+					return strconv.FormatInt(int64(x<<sh)>>sh, 10)
+				}
+			}
 			return f(v.v)
 		case float64:
 			return fmt.Sprint(v)
